@@ -14,6 +14,9 @@ def run(ctx):
     ctx.sample({"ranges": [traces[5]["kcfg"]["tr"], traces[5]["kcfg"]["rr"]], "events": traces[5]["events"][:3]})
     K.validate(ctx, traces, [K.strip_eval(t, "C11") for t in traces], "eval", "C11")
     jobs = K.full_jobs(ctx, ctx.pick(4, 30))
+    for k, j in enumerate(jobs):          # half of them: the same objects calibrated twice (a session)
+        if k % 2 == 0:
+            j["repeat"] = 2
     full = check.pmap(calib.calib_job, jobs, chunksize=1)
     ctx.cov["recorded_random"] += len(full)
     for t in full:
